@@ -481,4 +481,138 @@ end
 
 end VAst
 
+/-! ## statement-level assignment to a vector variable or to a swizzle of one
+
+`v = E;`, `v.xz = E;`, `v += E;`, `v.yx *= E;` with `E` an expression of the layer: the one place where the vector store
+changes.  (Assignments nested inside expressions stay outside the layer.) -/
+
+def VStore.set (ρ : VStore) (x : Var) (v : VVal) : VStore := fun y => if y = x then v else ρ y
+
+/-- overwrite components `idx` (in order) with `vals` -/
+def writeIdx : List Val → List Nat → List Val → Option (List Val)
+  | xs, [], [] => some xs
+  | xs, i :: is, v :: vs => if i < xs.length then writeIdx (xs.set i v) is vs else none
+  | _, _, _ => none
+
+/-- the new value of a variable after writing `v` to the whole of it / to the components `idx` -/
+def writePlace (cur : VVal) (idx : Option (List Nat)) (v : VVal) : Option VVal :=
+  match idx with
+  | none => some v
+  | some is =>
+    match cur with
+    | .vec xs => (writeIdx xs is v.comps).map .vec
+    | .sc _ => none
+
+/-- current value of the place -/
+def readPlace (cur : VVal) (idx : Option (List Nat)) : Option VVal :=
+  match idx with
+  | none => some cur
+  | some is => select is cur
+
+namespace VIr
+/-- `Variable(x)` / `Global(x)` of vector type, or `Swizzle` of one -/
+def placeOf : VExpr → Option (Var × Option (List SwizzleSlot))
+  | .vvar id => some (.loc id, none)
+  | .vglobal id => some (.glob id, none)
+  | .swz (.vvar id) sl => some (.loc id, some sl)
+  | .swz (.vglobal id) sl => some (.glob id, some sl)
+  | _ => none
+
+/-- a top-level expression: an assignment / compound assignment to a vector place updates the vector store and yields the
+stored value; anything else is evaluated as before -/
+def evalTop (W : World) (ρ : VStore) (e : VExpr) (σ : Store) : Option (VVal × Store × VStore) :=
+  match e with
+  | .op o (.cons lhs (.cons rhs .nil)) =>
+    match irOpSem o with
+    | .assign =>
+      match placeOf lhs with
+      | none => none
+      | some (x, sl) =>
+        match eval W ρ rhs σ with
+        | none => none
+        | some (v, σ1) =>
+          match writePlace (ρ x) (sl.map (·.map slotIdx)) v with
+          | none => none
+          | some nv => some (v, σ1, ρ.set x nv)
+    | .compound m =>
+      match placeOf lhs with
+      | none => none
+      | some (x, sl) =>
+        match eval W ρ rhs σ with
+        | none => none
+        | some (v, σ1) =>
+          match readPlace (ρ x) (sl.map (·.map slotIdx)) with
+          | none => none
+          | some cur =>
+            match lift2 (binop W.P m) cur v with
+            | none => none
+            | some r =>
+              match writePlace (ρ x) (sl.map (·.map slotIdx)) r with
+              | none => none
+              | some nv => some (r, σ1, ρ.set x nv)
+    | _ => (eval W ρ e σ).map fun r => (r.1, r.2, ρ)
+  | _ => (eval W ρ e σ).map fun r => (r.1, r.2, ρ)
+
+/-- typing of a top-level assignment: a place of type `T`, a right-hand side of type `T` (the type checker converts it),
+not a comparison operator -/
+def assignOK (sig : Sig) (vty : Var → Ty) (vvty : Var → VTy) (lhs rhs : VExpr) : Option VTy :=
+  match placeOf lhs, typeOf sig vty vvty lhs, typeOf sig vty vvty rhs with
+  | some _, some tl, some tr => if tl = tr then some tl else none
+  | _, _, _ => none
+end VIr
+
+namespace VAst
+/-- the variable and components an emitted assignment target denotes -/
+def lvalOfV (env : VEnv) : VAExpr → Option (Var × Option (List Nat))
+  | .ident s => (env.vres s).map fun x => (x, none)
+  | .member (.ident s) m =>
+    match env.vres s, parseSwizzle m with
+    | some x, some idx => some (x, some idx)
+    | _, _ => none
+  | _ => none
+
+def evalTop (W : World) (env : VEnv) (ρ : VStore) (a : VAExpr) (σ : Store) : Option (VVal × Store × VStore) :=
+  match a with
+  | .bin op l r =>
+    match astBinSem op with
+    | .assign =>
+      match lvalOfV env l, typeOf W.sig env l, typeOf W.sig env r with
+      | some (x, idx), some T, some tr =>
+        -- the right operand is converted to the type of the left operand; the stored value is the result
+        match vconvR W.P tr T (eval W env ρ r σ) with
+        | none => none
+        | some (v, σ1) =>
+          match writePlace (ρ x) idx v with
+          | none => none
+          | some nv => some (v, σ1, ρ.set x nv)
+      | _, _, _ => none
+    | .compound m =>
+      match lvalOfV env l, typeOf W.sig env l, typeOf W.sig env r with
+      | some (x, idx), some T, some tr =>
+        match vcommon T tr with
+        | none => none
+        | some C =>
+          match vconvR W.P tr C (eval W env ρ r σ) with
+          | none => none
+          | some (v, σ1) =>
+            match readPlace (ρ x) idx with
+            | none => none
+            | some cur0 =>
+              match vconvert W.P T C cur0 with
+              | none => none
+              | some cur =>
+                match lift2 (binop W.P m) cur v with
+                | none => none
+                | some r1 =>
+                  match vconvert W.P C T r1 with
+                  | none => none
+                  | some r2 =>
+                    match writePlace (ρ x) idx r2 with
+                    | none => none
+                    | some nv => some (r2, σ1, ρ.set x nv)
+      | _, _, _ => none
+    | _ => (eval W env ρ a σ).map fun r => (r.1, r.2, ρ)
+  | _ => (eval W env ρ a σ).map fun r => (r.1, r.2, ρ)
+end VAst
+
 end RsslVerif.Spec.SemVec
